@@ -524,14 +524,18 @@ func loopCarriedCell(al *ssa.Alloc, l *core.Loop, at ssa.Instruction) bool {
 		return false
 	}
 	written := false
+	reinit := map[*ssa.BasicBlock]bool{} // blocks of the loop that assign the variable as a whole, independently of its content
+	fieldsSet := map[*ssa.BasicBlock]map[int]bool{}
 	for _, r := range *al.Referrers() {
 		switch x := r.(type) {
 		case *ssa.Store:
 			if x.Addr == ssa.Value(al) && l.Blocks[x.Block()] {
-				if core.Dominates(x, at) && !depReaches(x.Val, func(v ssa.Value) bool { return v == ssa.Value(al) }) {
-					return false // re-initialised on every iteration before use
-				}
 				written = true
+				if !depReaches(x.Val, func(v ssa.Value) bool { return v == ssa.Value(al) }) {
+					if x.Block() != at.Block() || core.Dominates(x, at) {
+						reinit[x.Block()] = true
+					}
+				}
 			}
 		case *ssa.FieldAddr, *ssa.IndexAddr:
 			rv := x.(ssa.Value)
@@ -541,9 +545,52 @@ func loopCarriedCell(al *ssa.Alloc, l *core.Loop, at ssa.Instruction) bool {
 			for _, rr := range *rv.Referrers() {
 				if st, ok := rr.(*ssa.Store); ok && st.Addr == rv && l.Blocks[st.Block()] {
 					written = true
+					// x = T{a, b, c} is compiled into one store per field: a block that stores every field counts as a
+					// whole assignment
+					if fa, isFA := x.(*ssa.FieldAddr); isFA && (st.Block() != at.Block() || core.Dominates(st, at)) &&
+						!depReaches(st.Val, func(v ssa.Value) bool { return v == ssa.Value(al) }) {
+						if fieldsSet[st.Block()] == nil {
+							fieldsSet[st.Block()] = map[int]bool{}
+						}
+						fieldsSet[st.Block()][fa.Field] = true
+					}
 				}
 			}
 		}
 	}
-	return written
+	if !written {
+		return false
+	}
+	if stt, ok := derefT(al.Type()).Underlying().(*types.Struct); ok {
+		for b, fs := range fieldsSet {
+			if len(fs) == stt.NumFields() {
+				reinit[b] = true
+			}
+		}
+	}
+	// re-initialised on every iteration before use: no path from the loop header reaches `at` avoiding every such block
+	if reinit[at.Block()] {
+		return false
+	}
+	seen := map[*ssa.BasicBlock]bool{}
+	var reach func(b *ssa.BasicBlock) bool
+	reach = func(b *ssa.BasicBlock) bool {
+		if b == at.Block() {
+			return true
+		}
+		if seen[b] || !l.Blocks[b] || reinit[b] {
+			return false
+		}
+		seen[b] = true
+		for _, s := range b.Succs {
+			if s != l.Header && reach(s) {
+				return true
+			}
+		}
+		return false
+	}
+	if reinit[l.Header] {
+		return false
+	}
+	return reach(l.Header)
 }
